@@ -294,6 +294,10 @@ func (t *Tree) recover(errp *error) {
 func (t *Tree) startParse(lex *lexer) {
 	t.Root = nil
 	t.lex = lex
+	// Nothing of an earlier parse (one that stopped at an error, in
+	// particular) is looked at again.
+	t.peekCount = 0
+	t.token = [3]item{}
 }
 
 // stopParse terminates parsing.
